@@ -89,12 +89,13 @@ CLAIMS = {
          "the stream checks closedness on every compiled program. Tied to references.rs and "
          "objects.rs by generated programs with random names in every syntactic position: reference sets and execution outcomes against random "
          "contexts are compared with the model, and all clauses of the property are evaluated on the implementation's own answers."),
- "C15": ("PARTIAL. Theorems: + - == < on durations act on the exact nanosecond counts with an overflow error outside signed 64 bits; "
+ "C15": ("Theorems: + - == < on durations act on the exact nanosecond counts with an overflow error outside signed 64 bits; "
          "parse_duration accepts a string only if the whole of it is an optionally signed '0' or a non-empty sequence of terms, each a decimal number "
          "(no exponent, inf, nan, inner sign or space) immediately followed by one of h m s ms us (or micro sign) ns - proved from the structure of the "
-         "scanner; the listed malformed spellings are rejected; the rendering of -d is '-' followed by that of d. That the rendering is Go's canonical one and "
-         "that duration(string(d)) == d for every d are not unbounded theorems: they are evaluated on the implementation against an independent "
-         "implementation of Go's algorithm for a boundary set and random log-uniform durations of both signs, and proved by computation on samples. "
+         "scanner; the listed malformed spellings are rejected; the rendering of -d is '-' followed by that of d; and duration(string(d)) == d for EVERY "
+         "duration in signed 64-bit nanoseconds (C15_roundtrip: digit strings, stripped fractions, the UTF-8 step of the micro sign and the h/m/s split are "
+         "all inverted by the parser; i64::MIN included). PARTIAL in one clause: that the rendering is Go's canonical one is not a theorem - it is evaluated "
+         "on the implementation against an independent implementation of Go's algorithm for a boundary set and random log-uniform durations of both signs. "
          "The model transcribes duration.rs after its repair (exact integer parser)."),
  "C16": ("PARTIAL. Theorems: the day-number <-> civil-date conversions invert each other for EVERY integer day and EVERY valid proleptic-Gregorian "
          "date (one 400-year cycle by kernel computation, lifted to all integers through proved 146097-day / 400-year periodicity of both functions); the "
